@@ -48,7 +48,9 @@ MkFlow(xs, hs) == [i \in 1..Len(xs) |-> [x |-> xs[i], h |-> hs[i].h, p |-> hs[i]
 AllKinds == {"collect", "collect2", "nonempty", "pervalue", "shift", "mutate", "post", "postdup"}
 SomeKinds == {"collect2", "nonempty", "mutate", "postdup"}
 \* cut: compute() is first called after that many values (-1: after the whole flow)
-Scen(ee, kk, ff, cut) == [edges |-> ee, kind |-> kk, flow |-> ff, cut |-> IF cut = -1 THEN Len(ff) ELSE cut]
+\* form: how the edges are written (lists / tuples at each level, see SplitIntoBinsSem.tla)
+Scen(ee, kk, ff, cut) == [edges |-> ee, kind |-> kk, flow |-> ff, cut |-> IF cut = -1 THEN Len(ff) ELSE cut, form |-> "l"]
+WithForm(S, forms) == {[s EXCEPT !.form = f] : s \in S, f \in forms}
 \* one-dimensional scenarios: edges e, flows up to n values over Coords(e)
 S1(e, n, kinds, pats) == {Scen(<<e>>, k, MkFlow(xs, hs), -1) :
                             k \in kinds, xs \in SeqsUpTo({<<c>> : c \in Coords(e)}, n), hs \in pats}
@@ -64,12 +66,18 @@ Quick(u) == S1(E2, 2, AllKinds, {PAll(2), PAlt(2)}) \cup S1(E3, 2, AllKinds, {PA
             \cup S1(E3, 3, {"collect2", "mutate"}, {PAlt(3)}) \cup S1(E4, 2, {"nonempty", "postdup"}, {PAlt(2)})
             \cup {s \in S1Cut(E3, 2, {"collect2", "mutate", "nonempty"}, {PAll(2), PAlt(2)}) : WellCut(s)}
             \cup S2(E3, E3, 2, {"collect2"}) \cup S2(E3, E2, 2, {"collect", "pervalue"})
+            \cup WithForm(S2(E3, E2, 1, {"collect", "postdup"}), {"t", "lt", "tl"})
+            \cup WithForm(S1(E3, 2, {"collect2"}, {PAlt(2)}), {"t"})
 Thorough(u) == S1(E2, 3, AllKinds, {PAll(3), PAlt(3)}) \cup S1(E3, 3, AllKinds, {PAll(3), PAlt2(3)})
                \cup S1(E3, 4, {"collect2"}, {PAlt(4)}) \cup S1(E4, 3, SomeKinds, {PAlt(3)})
                \cup {s \in S1Cut(E3, 3, {"collect2", "mutate"}, {PAlt(3)}) : WellCut(s)}
                \cup {s \in S1Cut(E2, 2, AllKinds, {PAll(2), PAlt(2)}) : WellCut(s)}
                \cup S2(E3, E3, 2, SomeKinds) \cup S2(E3, E2, 2, AllKinds) \cup S2(E2, E4, 2, SomeKinds)
+               \cup WithForm(S2(E3, E2, 2, {"collect2", "mutate"}), {"t", "lt", "tl"})
+               \cup WithForm(S2(E2, E4, 1, AllKinds), {"t", "lt", "tl"})
+               \cup WithForm(S1(E3, 3, {"collect2", "nonempty"}, {PAlt(3)}) \cup S1(E2, 2, AllKinds, {PAlt(2)}), {"t"})
 Tiny(u) == {s \in S1Cut(E3, 2, {"collect2", "nonempty"}, {PAlt(2)}) : WellCut(s)} \cup S2(E3, E2, 1, {"collect"})
+           \cup WithForm(S2(E3, E2, 1, {"collect"}), {"t", "lt", "tl"})
 Scenarios == CASE U = "quick" -> Quick(U) [] U = "thorough" -> Thorough(U) [] U = "tiny" -> Tiny(U)
 
 (***************************************************************************)
@@ -90,10 +98,12 @@ VARIABLES sc,       \* the scenario [edges, kind, flow, cut]
 vars == <<sc, pos, cells, tmpl, last, hctx, vctx, phase, round, out, outs, it>>
 
 edges == sc.edges
+\* the edges as SplitIntoBins reads them from what the user wrote
+ReadEdges == AxesWritten(EdgesWritten(sc.edges, sc.form))
 flow == sc.flow
 Init == /\ sc \in Scenarios
         /\ pos = 0 /\ last = 0 /\ phase = "fill" /\ round = 0 /\ out = <<>> /\ outs = <<>> /\ it = <<>> /\ tmpl = <<>>
-        /\ cells = [idx \in Cells(sc.edges) |-> <<>>]          \* init_bins(edges, seq, deepcopy=True)
+        /\ cells = [idx \in Cells(ReadEdges) |-> <<>>]         \* init_bins(edges, seq, deepcopy=True)
         /\ hctx = Ctx(0, 0) /\ vctx = [i \in 1..Len(sc.flow) |-> ArrivingCtx(sc.flow, i)]
 
 Route == CellOf(flow[pos + 1].x, edges)                        \* get_bin_on_value
@@ -162,6 +172,10 @@ Done == phase = "done"
 (***************************************************************************)
 TypeOK == /\ phase \in {"fill", "compute", "iter", "done"} /\ pos \in 0..Len(flow) /\ last \in 0..pos
           /\ DOMAIN cells = Cells(edges) /\ round \in 0..3 /\ Len(outs) = round
+          /\ sc.form \in Forms(Len(sc.edges))
+\* the dimension and the axes are those the user wrote, lists or tuples: one private copy per cell of them
+AsWritten == /\ DimWritten(EdgesWritten(sc.edges, sc.form)) = Len(sc.edges) /\ ReadEdges = sc.edges
+             /\ DOMAIN cells = Cells(sc.edges)
 \* C11: every cell holds exactly the sub-flow of the values whose argument falls into it, in arrival order
 PerCell == \A idx \in Cells(edges) : cells[idx] = SubFlowUpTo(flow, edges, idx, pos)
 \* the analysis object handed to the constructor is only a template: it is never filled
@@ -229,7 +243,7 @@ MapShape == (phase = "done" /\ Final # <<>>) =>
 (***************************************************************************)
 NestAll(hs) == [k \in 1..Len(hs) |-> Nest(hs[k], edges)]
 Emitted == Done => PrintT(ToJson([
-   edges |-> edges, kind |-> sc.kind, flow |-> flow, cut |-> sc.cut,
+   edges |-> edges, form |-> sc.form, kind |-> sc.kind, flow |-> flow, cut |-> sc.cut,
    route |-> [i \in 1..Len(flow) |-> CellOf(flow[i].x, edges)],
    computes |-> [k \in 1..Len(outs) |-> [n |-> outs[k].n, hists |-> NestAll(BinsOf(outs[k].hists)),
                                           hctx |-> HistCtxSem(edges, Prefix(outs[k].n)),
